@@ -7,7 +7,9 @@ A case is an operation log
                                      ["remove_edge", 2, 1]], "nx": {"mul": 2, "add": -1, "rev": true}}
 
 (``"L"``, ``"R"`` instead of ``"n"`` for BipartiteGraph; ``["add_batch", pairs, "list"|"iter"|"tuple"]`` is
-add_edges_from judged without assuming an order of processing, see the batches section).  run_case replays the log on
+add_edges_from judged without assuming an order of processing, see the batches section; ``["hold", kind, arg, mode]``
+and ``["consult", k]`` keep an object returned by the graph and look at it later, see the held views section).
+run_case replays the log on
 a fresh object and on the model of vlib/graphmodel.py (vertex count + Python set of
 edges) and compares every public view with the model after every step; at the end
 (and every 8th step) the networkx conversions are checked as well.
@@ -44,6 +46,12 @@ ASSUMPTIONS = [
     "only its content",
     "edges() of a simple graph must be sorted as listed and contain every edge once in some orientation; the "
     "orientation itself (u<v) is not asserted",
+    "held objects: the objects returned by edges() and edges_ordered_by_successors() answer through the graph (live "
+    "views) in the tree, so a held one must describe the graph as it is whenever it is looked at; vertices(), parts() "
+    "(ranges), right_neighbors()/left_neighbors() (copies) and neighbors()/predecessors()/successors() (generators, "
+    "looked at once, for a vertex that exists when the call is made) are not documented as live: either the state at the "
+    "time of the call or the present state is accepted; an iterator over a view that is advanced while the graph "
+    "changes is not examined",
     "from_networkx on foreign networkx graphs: labels are an increasing integer relabelling of 1..n; for bipartite "
     "graphs the vertices of each side are inserted in increasing order (the class relabels each side by order of "
     "appearance, Graph/DirectedGraph by sorted label), possibly the whole right side before the left side",
@@ -89,10 +97,18 @@ def run_case(case):
     nxp = case.get('nx') or {'mul': 1, 'add': 0, 'rev': False}
     nxp = {'mul': nxp['mul'], 'add': nxp['add'], 'rev': nxp['rev']}
     ops = case['ops']
+    held = []
+    looked_last = False
     for i, op in enumerate(ops):
+        if op[0] in ('hold', 'consult'):
+            ctx = "{} at step {} {}".format(head, i, _show(op))
+            labels |= _hold(G, M, op, held, i, ctx) if op[0] == 'hold' else _consult(G, M, op, held, i, ctx)
+            looked_last = True
+            continue
         if not hasattr(G, 'add_edges_from' if op[0] == 'add_batch' else op[0]):
             labels.add('operation-not-offered')
             continue
+        looked_last = False
         ctx = "{} after step {} {}".format(head, i, _show(op))
         before = len(M.E)
         if op[0] == 'add_batch':
@@ -113,9 +129,18 @@ def run_case(case):
         if 'refused' in got and len(M.E) == before:
             labels.add('refused-nothing-changed')
         gm.check_views(G, M, ctx)
+        for h in held:
+            h['events'] |= got & _HELD_EVENTS
+            if h['mode'] == 'eager':
+                labels |= _check_held(G, M, h, i, ctx, full=False)
         if i % 8 == 7 and i != len(ops) - 1:
             gm.check_conversions(G, M, ctx, nxp)
+    if looked_last:
+        # looking at a held object is not an update
+        gm.check_views(G, M, "{} at the end of {} steps".format(head, len(ops)))
     gm.check_conversions(G, M, "{} at the end of {} steps".format(head, len(ops)), nxp)
+    for k, h in enumerate(held):
+        labels |= _check_held(G, M, h, len(ops), "{} at the end of {} steps".format(head, len(ops)), full=True)
     if M.kind == 'directed' and M.E and M.is_dag():
         labels.add('dag-at-the-end')
     if M.kind == 'directed' and M.E and not M.is_dag():
@@ -134,17 +159,213 @@ def _show(op):
     if op[0] in ('add_edges_from', 'add_batch'):
         return "add_edges_from({}{})".format(op[1], {'iter': ' as iterator', 'tuple': ' as tuple'}.get(
             op[2] if len(op) > 2 else 'list', ''))
+    if op[0] == 'hold':
+        return "hold {}{} ({})".format(op[1], '({})'.format(op[2]) if op[1] in _HOLD_WITH_ARG else '()', op[3])
+    if op[0] == 'consult':
+        return "consult held object {}".format(op[1])
     return "{}({})".format(op[0], ','.join(map(str, op[1:])))
+
+
+# ---------------------------------------------------------------------------
+# held views: objects returned by the graph, kept across updates and looked at later
+#
+#   ["hold", kind, arg, mode]   obtain an object from the graph now and keep it (at most MAX_HELD, then the oldest
+#                               is replaced);  mode 'eager': looked at after every later step, 'lazy': only when a
+#                               "consult" names it (and at the end of the history)
+#   ["consult", k]              look at the held object number k modulo the number of held objects
+#
+#   kind 'edges'       G.edges()                          the edge views are objects that answer through the graph
+#        'edges_succ'  G.edges_ordered_by_successors()    (live views): at every later moment iteration, len() and
+#                                                         `in` must describe the graph as it is then, exactly as a
+#                                                         view obtained at that moment does
+#        'vertices'    G.vertices()  /  'parts'  G.parts()         ranges: the vertices at the time of the call or now
+#        'nbrs'        neighbors(u) / predecessors(u) / successors(u) (generators, looked at once) and
+#                      right_neighbors(u) / left_neighbors(u) (lists): the neighbours at the time of the call or now
+#                      (arg = the vertex, reduced modulo the number of vertices; for bipartite graphs an odd arg
+#                      asks for the left neighbours of a right vertex)
+
+MAX_HELD = 4
+HOLD_KINDS = {
+    'Graph': ('edges', 'vertices', 'nbrs'),
+    'DirectedGraph': ('edges', 'edges_succ', 'vertices', 'nbrs'),
+    'BipartiteGraph': ('edges', 'parts', 'nbrs'),
+}
+_HOLD_WITH_ARG = ('nbrs',)
+_HELD_EVENTS = frozenset(['growth', 'removal', 'inserted', 'batch-ok', 'batch-refused', 'refused', 'duplicate', 'batch'])
+
+
+def _model_nbrs(M, which, u):
+    if which in ('neighbors',):
+        return sorted([b for (a, b) in M.E if a == u] + [a for (a, b) in M.E if b == u])
+    if which in ('successors', 'right_neighbors'):
+        return sorted(b for (a, b) in M.E if a == u)
+    return sorted(a for (a, b) in M.E if b == u)
+
+
+def _hold(G, M, op, held, step, ctx):
+    kind, arg, mode = op[1], op[2], op[3]
+    if kind not in HOLD_KINDS[M.clsname]:
+        return set(['hold-not-offered'])
+    N = (M.L + M.R) if M.kind == 'bipartite' else M.n
+    h = {'kind': kind, 'mode': mode, 'step': step, 'n0': N, 'E0': set(M.E), 'events': set(), 'looks': 0,
+         'spent': False, 'what': kind + '()', 'E_last': None}
+    if kind == 'edges':
+        h['obj'] = gm._view(ctx, 'edges()', G.edges)
+    elif kind == 'edges_succ':
+        h['obj'] = gm._view(ctx, 'edges_ordered_by_successors()', G.edges_ordered_by_successors)
+        h['what'] = 'edges_ordered_by_successors()'
+    elif kind == 'vertices':
+        h['obj'] = gm._view(ctx, 'vertices()', G.vertices)
+        h['snap'] = list(range(1, N + 1))
+    elif kind == 'parts':
+        h['obj'] = gm._view(ctx, 'parts()', G.parts)
+        h['snap'] = [list(range(1, M.L + 1)), list(range(1, M.R + 1))]
+    else:
+        if M.kind == 'bipartite':
+            which = 'left_neighbors' if arg % 2 else 'right_neighbors'
+            size = M.R if arg % 2 else M.L
+        elif M.kind == 'directed':
+            which, size = ('predecessors' if arg % 2 else 'successors'), M.n
+        else:
+            which, size = 'neighbors', M.n
+        if size < 1:
+            return set(['hold-no-vertex'])
+        u = 1 + (arg // 2) % size
+        h.update(which=which, u=u, what='{}({})'.format(which, u), snap=_model_nbrs(M, which, u),
+                 once=(M.kind != 'bipartite'))
+        h['obj'] = gm._view(ctx, h['what'], getattr(G, which), u)
+    if len(held) >= MAX_HELD:
+        held[step % MAX_HELD] = h
+    else:
+        held.append(h)
+    labels = set(['view-held', 'held:' + kind, 'held-' + mode])
+    if N == 0:
+        labels.add('view-held-at-0-vertices')
+    if not M.E:
+        labels.add('view-held-on-edgeless-graph')
+    return labels
+
+
+def _consult(G, M, op, held, step, ctx):
+    if not held:
+        return set(['consult-nothing-held'])
+    return _check_held(G, M, held[op[1] % len(held)], step, ctx, full=True) | set(['view-consulted'])
+
+
+def _check_held(G, M, h, step, ctx, full):
+    """The held object h, looked at now.  full: membership for every ordered pair from -1 to n+2 and a second
+    iteration; otherwise len(), one iteration and membership of the listed pairs."""
+    kind = h['kind']
+    N = (M.L + M.R) if M.kind == 'bipartite' else M.n
+    what = "{} obtained at step {} (when the graph had {} vertices and the edges {})".format(
+        h['what'], h['step'], h['n0'], sorted(h['E0']))
+    labels = set()
+
+    def bad(msg):
+        raise Violation("{}: {} {} | model: {}".format(ctx, what, msg, M.describe()), signature='held-' + kind)
+
+    if kind in ('vertices', 'parts'):
+        got = gm._view(ctx, what, lambda: [list(p) for p in h['obj']] if kind == 'parts' else list(h['obj']))
+        now = [list(range(1, M.L + 1)), list(range(1, M.R + 1))] if kind == 'parts' else list(range(1, N + 1))
+        if got != now and got != h['snap']:
+            bad("lists {}: neither the vertices at that time nor the vertices now".format(got))
+        labels.add('held-range-is-now' if got == now else 'held-range-is-snapshot')
+        h['looks'] += 1
+        return labels
+    if kind == 'nbrs':
+        if h['spent']:
+            return labels
+        now = _model_nbrs(M, h['which'], h['u'])
+        got = gm._view(ctx, what, lambda: list(h['obj']))
+        if got != now and got != h['snap']:
+            bad("lists {}: neither the neighbours at that time, {}, nor the neighbours now, {}".format(
+                got, h['snap'], now))
+        if now != h['snap']:
+            labels.add('held-nbrs-are-now' if got == now else 'held-nbrs-are-snapshot')
+        if h['once']:
+            h['spent'] = True       # a generator: there is nothing left to look at
+        h['looks'] += 1
+        return labels
+
+    # ---- a held edge view
+    V = h['obj']
+    E = M.E
+    size = gm._view(ctx, 'len of ' + what, len, V)
+    if size != len(E):
+        bad("has len() = {} instead of {}".format(size, len(E)))
+    listing = gm._view(ctx, 'iteration of ' + what, lambda: gm._pairs(V, ctx, what))
+    normed = [M.norm(u, v) for (u, v) in listing]
+    if len(set(normed)) != len(normed):
+        bad("lists an edge twice: {}".format(listing))
+    if set(normed) != E:
+        bad("lists {}".format(listing))
+    if kind == 'edges':
+        if listing != sorted(listing):
+            bad("is not sorted: {}".format(listing))
+        if M.kind != 'simple' and listing != sorted(E):
+            bad("lists {}".format(listing))
+    fresh = G.edges() if kind == 'edges' else G.edges_ordered_by_successors()
+    flist = gm._pairs(fresh, ctx, 'a fresh ' + h['what'])
+    if flist != listing or len(fresh) != size:
+        bad("lists {} (len {}) while a view obtained now lists {} (len {})".format(listing, size, flist, len(fresh)))
+    if full:
+        if M.kind == 'bipartite':
+            us, vs = range(-1, M.L + 3), range(-1, M.R + 3)
+        else:
+            us = vs = range(-1, N + 3)
+        probes = [(u, v) for u in us for v in vs]
+    else:
+        probes = list(listing) + [(v, u) for (u, v) in listing] + sorted(h['E0'] - E)
+    for (u, v) in probes:
+        want = M.has(u, v)
+        got = gm._view(ctx, '({},{}) in {}'.format(u, v, what), lambda: (u, v) in V)
+        if bool(got) != want:
+            bad("answers {} to `({},{}) in view`".format(got, u, v))
+        if bool((u, v) in fresh) != want:
+            bad("is consulted when a view obtained now answers {} to `({},{}) in view`".format((u, v) in fresh, u, v))
+    if full:
+        again = gm._pairs(V, ctx, what)
+        if again != listing:
+            bad("lists {} and, iterated once more, {}".format(listing, again))
+        labels.add('held-edge-view-consulted')
+        ev = h['events']
+        if 'growth' in ev:
+            labels.add('consult-after-growth')
+            if any(min(e) > h['n0'] for e in E):
+                labels.add('consult-sees-edge-among-new-vertices')
+            if h['n0'] == 0 and E:
+                labels.add('consult-sees-edges-of-a-graph-held-at-0-vertices')
+        if 'removal' in ev:
+            labels.add('consult-after-removal')
+        if 'inserted' in ev:
+            labels.add('consult-after-insertion')
+        if 'batch' in ev or 'batch-ok' in ev or 'batch-refused' in ev:
+            labels.add('consult-after-batch')
+        if 'refused' in ev:
+            labels.add('consult-after-refused-call')
+        if E != h['E0'] and len(E) == len(h['E0']):
+            labels.add('consult-same-count-other-edges')
+    if h['looks'] >= 1 and E != h['E_last']:
+        labels.add('looked-at-again-after-a-change')
+    h['E_last'] = set(E)
+    h['looks'] += 1
+    return labels
 
 
 # ---------------------------------------------------------------------------
 # generated histories
 
 WEIGHTS = {
-    'Graph': ['add_edge'] * 9 + ['remove_edge'] * 4 + ['add_edges_from'] * 3 + ['update_vertex_number'] * 3,
-    'DirectedGraph': ['add_edge'] * 7 + ['add_edges_from'] * 2,
-    'BipartiteGraph': ['add_edge'] * 7 + ['add_edges_from'] * 2,
+    'Graph': ['add_edge'] * 9 + ['remove_edge'] * 4 + ['add_edges_from'] * 3 + ['update_vertex_number'] * 3 +
+             ['hold'] * 2 + ['consult'] * 3 + ['grow-and-join'],
+    'DirectedGraph': ['add_edge'] * 7 + ['add_edges_from'] * 2 + ['hold', 'consult', 'consult'],
+    'BipartiteGraph': ['add_edge'] * 7 + ['add_edges_from'] * 2 + ['hold', 'consult', 'consult'],
 }
+_H_KIND = {c: st.sampled_from(HOLD_KINDS[c] + ('edges', 'edges')) for c in HOLD_KINDS}
+_H_ARG = st.integers(0, 23)
+_H_MODE = st.sampled_from(['lazy', 'lazy', 'eager'])
+_H_WHICH = st.integers(0, MAX_HELD - 1)
+_H_GROW = st.integers(2, 3)
 
 
 def _draw_pair(draw, M):
@@ -194,6 +415,18 @@ def _history(draw, clsname, max_steps):
             u, v = _draw_pair(draw, M)
             ops.append(['remove_edge', u, v])
             M.E.discard(M.norm(u, v))
+        elif name == 'hold':
+            ops.append(['hold', draw(_H_KIND[clsname]), draw(_H_ARG), draw(_H_MODE)])
+        elif name == 'consult':
+            ops.append(['consult', draw(_H_WHICH)])
+        elif name == 'grow-and-join':
+            # growth by 2 or 3 vertices and an edge between two of the new vertices
+            k = draw(_H_GROW)
+            if M.n + k <= NMAX:
+                ops.append(['update_vertex_number', M.n + k])
+                ops.append(['add_edge', M.n + k, M.n + 1] if k == 3 else ['add_edge', M.n + 1, M.n + 2])
+                M.n += k
+                _gen_insert(M, ops[-1][1], ops[-1][2])
         elif name == 'update_vertex_number':
             k = draw(st.integers(-1, min(M.n + 3, NMAX)))
             ops.append(['update_vertex_number', k])
@@ -275,7 +508,83 @@ def _enumerate(clsname):
                          'nx': {'mul': 1 + k % 2, 'add': k % 3 - 1, 'rev': bool(k % 4 >= 2)}}
                     c.update(s)
                     yield c
+        for c in _view_histories(clsname, tier):
+            yield c
     return gen
+
+
+def _view_scripts(clsname):
+    """Short update scripts: functions of the current sizes (a dict) giving the operations."""
+    if clsname == 'Graph':
+        def grow(k, edges):
+            def f(z):
+                n = z['n']
+                z['n'] = n + k
+                return [['update_vertex_number', n + k]] + [['add_edge', n + a, n + b] for a, b in edges] + \
+                    ([['add_edge', 1, n + 1]] if n >= 1 and len(edges) > 1 else [])
+            return f
+        return [
+            grow(2, [(1, 2)]),                                   # two new vertices and the edge between them
+            grow(3, [(2, 3), (3, 1)]),                           # edges among new vertices and old-new
+            lambda z: [['add_edge', 1, 2], ['add_edge', 3, 1], ['add_edge', z['n'], 1]],
+            lambda z: [['remove_edge', 2, 1], ['remove_edge', 1, z['n']]],
+            lambda z: [['add_edges_from', [[z['n'], 1], [2, 3], [z['n'] + 1, 1], [1, 2]], 'list']],
+            grow(1, []),
+            lambda z: [['add_batch', [[2, 1], [max(z['n'], 1), 2], [3, 2]], 'iter'], ['remove_edge', 1, 2],
+                       ['add_edge', 2, 3]],
+            lambda z: [['add_edge', 0, 1], ['add_edge', 2, 1], ['add_edge', 1, 2], ['update_vertex_number', z['n']]],
+        ], [{'n': n} for n in (0, 1, 2, 3)], [['add_edge', 1, 2]]
+    if clsname == 'DirectedGraph':
+        return [
+            lambda z: [['add_edge', 1, 2], ['add_edge', 2, 3]],
+            lambda z: [['add_edge', z['n'], 1]],
+            lambda z: [['add_edge', 1, 1], ['add_edge', 2, 1]],
+            lambda z: [['add_edges_from', [[1, z['n']], [2, z['n']], [1, 3]], 'iter']],
+            lambda z: [['add_edges_from', [[1, 2], [2, 4], [z['n'] + 1, 1], [3, 4]], 'list']],
+            lambda z: [['add_edge', 0, 1], ['add_edge', 1, 2], ['add_batch', [[3, 1], [3, 2], [1, 3]], 'tuple']],
+        ], [{'n': n} for n in (0, 1, 3, 4)], [['add_edge', 1, 2]]
+    return [
+        lambda z: [['add_edge', 1, 1], ['add_edge', 1, 2]],
+        lambda z: [['add_edge', z['L'], z['R']], ['add_edge', 2, 1]],
+        lambda z: [['add_edges_from', [[1, z['R']], [2, 1], [2, 2]], 'list']],
+        lambda z: [['add_edges_from', [[1, 1], [z['L'] + 1, 1], [2, 3]], 'iter']],
+        lambda z: [['add_edge', z['R'] + 1, 1], ['add_edge', 1, 1], ['add_edge', 1, 0]],
+        lambda z: [['add_batch', [[2, 3], [1, 3], [1, 1]], 'tuple'], ['add_edge', 2, 2]],
+    ], [{'L': 0, 'R': 0}, {'L': 0, 'R': 2}, {'L': 2, 'R': 3}, {'L': 3, 'R': 1}], [['add_edge', 1, 1]]
+
+
+def _view_histories(clsname, tier):
+    """[edge] hold script-a consult script-b consult [hold script-c consult]: every pair (a, b) of scripts from every
+    start, the kinds of held object and the two modes in rotation (thorough tier: every kind and mode)."""
+    scripts, starts, pre = _view_scripts(clsname)
+    kinds = HOLD_KINDS[clsname]
+    k = 0
+    for s in starts:
+        for with_pre in (0, 1):
+            for a in range(len(scripts)):
+                for b in range(len(scripts)):
+                    k += 1
+                    if tier == 'thorough':
+                        variants = [(kd, md) for kd in kinds for md in ('lazy', 'eager')]
+                    else:
+                        variants = [((('edges',) + kinds)[k % (len(kinds) + 1)], ('lazy', 'eager')[(k // 5) % 2])]
+                    for kd, md in variants:
+                        z = dict(s)
+                        ops = [list(o) for o in pre] if with_pre else []
+                        ops.append(['hold', kd, k, md])
+                        ops += scripts[a](z)
+                        ops.append(['consult', 0])
+                        ops += scripts[b](z)
+                        ops.append(['consult', 0])
+                        if k % 3 == 0:
+                            # a second object, obtained in the middle of the history; both are looked at afterwards
+                            ops.append(['hold', 'edges_succ' if (clsname == 'DirectedGraph' and k % 2) else 'edges', 0,
+                                        'lazy'])
+                            ops += scripts[(a + b + 1) % len(scripts)](z)
+                            ops += [['consult', 1], ['consult', 0]]
+                        c = {'cls': clsname, 'ops': ops, 'nx': {'mul': 1 + k % 2, 'add': k % 3 - 1, 'rev': bool(k % 4 >= 2)}}
+                        c.update(s)
+                        yield c
 
 
 COMMON_RULE = ("model = vertex count + Python set of edges; after every step every public view is compared with "
@@ -285,6 +594,21 @@ COMMON_RULE = ("model = vertex count + Python set of edges; after every step eve
                "from_networkx(to_networkx()), normalize(to_networkx()), normalize(G) is G and normalize of a "
                "relabelled networkx graph built from the model must give the model again. ")
 
+VIEW_RULE = ("HELD VIEWS: the histories also contain `hold` (keep the object returned now by edges(), "
+             "edges_ordered_by_successors(), vertices() / parts(), a neighbour generator or list; at most 4 are kept) and "
+             "`consult k` steps (generated: about 1 step in 5; enumerated: from every start [an edge] hold, script a, consult, "
+             "script b, consult, [a second hold, script c, consult both] for every pair (a, b) of 6-8 update scripts - growth by "
+             "1..3 vertices with edges among the new vertices and between old and new ones, insertions, removals, batches "
+             "with and without a forbidden pair, refused calls, duplicates - with the kind of object and the mode in "
+             "rotation, thorough: every kind and mode). A held edge view is looked at when consulted, at the end of the "
+             "history and (mode eager) after every later step: len(), iteration (sorted, each edge once, twice the same), "
+             "and `in` for every ordered pair from -1 to n+2 must equal the model at that moment and the answers of a view "
+             "obtained at that moment. Held ranges and neighbour lists/generators (snapshots in the tree) must show the "
+             "graph at the time of the call or as it is now. ")
+_VIEW_LABELS = ['view-held', 'view-consulted', 'held:edges', 'held:nbrs', 'held-eager', 'held-lazy',
+                'held-edge-view-consulted', 'consult-after-insertion', 'consult-after-batch', 'consult-after-refused-call',
+                'looked-at-again-after-a-change', 'view-held-at-0-vertices']
+
 SUBCHECKS = [
     SubCheck('simple', run_case, strategy=_strategy('Graph'), enumerate_cases=_enumerate('Graph'),
              quick=4000, thorough=16000,
@@ -292,35 +616,38 @@ SUBCHECKS = [
                   "add_edges_from (half of them with a forbidden pair in the middle, list or iterator) / "
                   "update_vertex_number(-1..n+3, capped at 12), arguments legal, already present (either "
                   "orientation) or anything in -1..n+2; plus every history of length <=2 (thorough <=3) over 39 "
-                  "operations from n=0,1,2. " + COMMON_RULE +
+                  "operations from n=0,1,2. " + COMMON_RULE + VIEW_RULE +
                   "Non-trivial: >=5 successful insertions and a removal after a growth.",
              required_labels=['refused', 'refused-nothing-changed', 'duplicate', 'duplicate-other-orientation',
                               'removal', 'removal-other-orientation', 'remove-absent', 'growth',
                               'growth-not-above', 'growth-negative-refused', 'removal-after-growth',
                               'edge-on-new-vertex', 'selfloop-refused', 'refused-zero', 'batch-ok',
                               'batch-refused', 'batch-bad-in-the-middle', 'initial-size-0',
-                              'networkx-relabelled', '5-insertions', 'bad-initial-size']),
+                              'networkx-relabelled', '5-insertions', 'bad-initial-size'] + _VIEW_LABELS +
+             ['held:vertices', 'consult-after-growth', 'consult-after-removal', 'consult-sees-edge-among-new-vertices',
+              'consult-sees-edges-of-a-graph-held-at-0-vertices', 'consult-same-count-other-edges']),
     SubCheck('directed', run_case, strategy=_strategy('DirectedGraph'), enumerate_cases=_enumerate('DirectedGraph'),
              quick=4000, thorough=16000,
              rule="DirectedGraph(n), n=0..6, histories of 0..50 (thorough 0..200) calls of add_edge / "
                   "add_edges_from with forward edges, back edges, loops, duplicates and out-of-range arguments; "
-                  "plus every history of length <=2 (thorough <=3) over 28 operations from n=0..3. " + COMMON_RULE +
+                  "plus every history of length <=2 (thorough <=3) over 28 operations from n=0..3. " + COMMON_RULE + VIEW_RULE +
                   "is_dag() must be True exactly when every inserted edge has src < dest (also after refused back "
                   "edges). Non-trivial: >=5 successful insertions.",
              required_labels=['refused', 'refused-nothing-changed', 'duplicate', 'back-edge', 'loop',
                               'dag-at-the-end', 'not-dag-at-the-end', 'batch-ok', 'batch-refused',
                               'batch-bad-in-the-middle', 'initial-size-0', 'networkx-relabelled',
-                              '5-insertions', 'refused-zero', 'bad-initial-size']),
+                              '5-insertions', 'refused-zero', 'bad-initial-size'] + _VIEW_LABELS +
+             ['held:edges_succ', 'held:vertices']),
     SubCheck('bipartite', run_case, strategy=_strategy('BipartiteGraph'), enumerate_cases=_enumerate('BipartiteGraph'),
              quick=4000, thorough=16000,
              rule="BipartiteGraph(L,R), L,R=0..5, histories of 0..50 (thorough 0..200) calls of add_edge / "
                   "add_edges_from, left argument in -1..L+2 and right argument in -1..R+2; plus every history of "
-                  "length <=2 (thorough <=3) over 18 operations from L,R in 0..2. " + COMMON_RULE +
+                  "length <=2 (thorough <=3) over 18 operations from L,R in 0..2. " + COMMON_RULE + VIEW_RULE +
                   "Non-trivial: >=5 successful insertions.",
              required_labels=['refused', 'refused-nothing-changed', 'duplicate', 'swapped-sides-refused',
                               'batch-ok', 'batch-refused', 'batch-bad-in-the-middle', 'initial-size-0',
                               'one-empty-side', 'networkx-relabelled', '5-insertions', 'refused-zero',
-                              'bad-initial-size']),
+                              'bad-initial-size'] + _VIEW_LABELS + ['held:parts']),
 ]
 
 
@@ -483,6 +810,7 @@ def make_batch_case(rseed, clsname, size, order, bad, pos, dups, pre, how='list'
         if k is None:
             k = rng.randint(0, len(pairs))
         pairs.insert(k, _bad_pair(rng, clsname, sizes, bad))
+    main_at = len(ops)
     ops.append(['add_batch', pairs, how])
     # ---- afterwards
     touched = chosen or U[:1]
@@ -504,6 +832,15 @@ def make_batch_case(rseed, clsname, size, order, bad, pos, dups, pre, how='list'
         elif U:
             again = rng.sample(U, min(len(U), rng.choice([3, 33, 70])))
             ops.append(['add_batch', [orient(p) for p in again], rng.choice(['list', 'iter'])])
+    # ---- an edge view obtained before the batch (and, every other case, one obtained on the new object) is
+    # looked at right after the batch and at the end of the history (positions fixed by rseed, no random draw)
+    kind = 'edges_succ' if (clsname == 'DirectedGraph' and rseed % 4 == 1) else 'edges'
+    ops.append(['consult', 0])
+    ops.append(['consult', 1])
+    ops.insert(main_at + 1, ['consult', rseed % 2])
+    ops.insert(main_at, ['hold', kind, 0, 'eager' if rseed % 3 == 0 else 'lazy'])
+    if rseed % 2:
+        ops.insert(0, ['hold', 'edges', 0, 'lazy'])
     case['ops'] = ops
     case['nx'] = {'mul': 1 + rseed % 3, 'add': rseed % 5 - 2, 'rev': bool(rseed % 2)}
     case['meta'] = {'size': size, 'order': order, 'bad': bad, 'pos': pos, 'dups': dups, 'pre': pre}
@@ -571,7 +908,9 @@ SUBCHECKS.append(
                   "is empty or holds a few edges / an earlier batch / a removal before; after the batch 3..7 more "
                   "calls: add_edge of a pair of the batch, of a pair at a vertex the batch touched, of a forbidden "
                   "pair, remove_edge, update_vertex_number + an edge on the new vertex (Graph), another batch of 3, 33 "
-                  "or 70 pairs. Oracle: the model; a batch without forbidden pair must return and insert every pair; a "
+                  "or 70 pairs; an edge view obtained just before the batch (every other case also one obtained on the new "
+                  "object) is consulted right after the batch and at the end (see HELD VIEWS of the other sub-checks). "
+                  "Oracle: the model; a batch without forbidden pair must return and insert every pair; a "
                   "batch with a forbidden pair must raise ValueError and may leave ANY subset of its legal pairs in "
                   "the graph (has_edge tells which, no order of processing or atomicity is assumed): the model becomes "
                   "old edges + that subset; then, as after every step, " + COMMON_RULE +
@@ -584,4 +923,5 @@ SUBCHECKS.append(
                               'bad:above-range', 'bad:zero', 'bad:negative', 'bad:self-loop', 'bad:gray-loop',
                               'bad:above-left', 'bad:above-right', 'bad:wrong-side', 'bad:none', 'order:sorted',
                               'order:reversed', 'order:shuffled', 'order:by-second', 'removal', 'growth',
-                              'duplicate', '5-insertions', 'networkx-relabelled']))
+                              'duplicate', '5-insertions', 'networkx-relabelled', 'view-held', 'view-consulted',
+                              'consult-after-batch', 'held:edges_succ', 'held-eager', 'held-lazy']))
